@@ -240,6 +240,65 @@ Theorem leave_core_reg_events : forall r sid,
 Proof. exact RealmMetaProofs.leave_core_reg_events. Qed.
 Print Assumptions leave_core_reg_events.
 
+(** ** a session end announces each of the leaver's subscriptions *)
+From Nexus Require Import Router.BrokerLeave Router.BrokerExamples.
+
+(** For every well-formed broker: the output of [broker_remove_session] is,
+    for every subscription id in the leaver's [b_sess] list (each once, in list
+    order), exactly one on_unsubscribe meta publication [sid; subid] followed
+    by exactly one on_delete [sid; subid] iff the subscription had no other
+    subscriber and no history store ([sole_no_hist]) — as UNSUBSCRIBE does.
+    A step [x] records the subscription [ls_sub x], the broker [ls_broker x]
+    whose meta subscriptions receive the events (every other session holds in
+    it exactly what it held before; the leaver no longer holds [ls_sub x]),
+    the id supply before ([ls_pg x]) and whether the subscription went away
+    ([ls_del x]); publication ids are consecutive ([pg_chain]). *)
+Theorem leave_announces_unsubscribe : forall b pg sid ids b' pg' o,
+    broker_wf b -> nget (b_sess b) sid = Some ids ->
+    broker_remove_session b pg sid = (b', pg', o) ->
+    NoDup ids /\
+    exists steps : list (N * broker * N * bool),
+      map ls_sub steps = ids /\
+      o = flat_map (fun x =>
+            sub_meta_event (ls_broker x) t_sub_on_unsubscribe sid (ls_pg x + 1) [vid sid; vid (ls_sub x)] ++
+            (if ls_del x
+             then sub_meta_event (ls_broker x) t_sub_on_delete sid (ls_pg x + 2) [vid sid; vid (ls_sub x)]
+             else [])) steps /\
+      pg_chain pg steps pg' /\
+      (forall x, In x steps ->
+         ls_del x = sole_no_hist b sid (ls_sub x) /\
+         forall r, r <> sid -> forall id t k,
+             holds_sig (ls_broker x) r id t k <-> holds_sig b r id t k).
+Proof. exact BrokerLeave.leave_announces_unsubscribe. Qed.
+Print Assumptions leave_announces_unsubscribe.
+
+(** [ls_del]: no other subscriber and no history store *)
+Theorem leave_deletes_iff : forall b sid subid,
+    sole_no_hist b sid subid = true <->
+    exists s, nget (b_subs b) subid = Some s /\ (forall x, In x (sub_subs s) -> x = sid) /\
+              has_history b subid = false.
+Proof. exact BrokerLeave.sole_no_hist_spec. Qed.
+Print Assumptions leave_deletes_iff.
+
+(** a leaver without subscriptions is silent *)
+Theorem leave_without_subscriptions : forall b pg sid,
+    nget (b_sess b) sid = None -> broker_remove_session b pg sid = (b, pg, []).
+Proof. exact BrokerLeave.leave_without_subscriptions. Qed.
+Print Assumptions leave_without_subscriptions.
+
+(** session 10 holds "a.b" (id 1, shared with 11) and "solo" (id 2, alone);
+    session 20 watches both meta topics (subscriptions 3 and 4): on_unsubscribe
+    for both, on_delete for "solo" only, ids 101, 102, 103 *)
+Example c18_leave_example :
+  (broker_wf ex_lb /\ nget (b_sess ex_lb) 10 = Some [1; 2]) /\
+  (sole_no_hist ex_lb 10 1 = false /\ sole_no_hist ex_lb 10 2 = true) /\
+  snd (broker_remove_session ex_lb 100 10) =
+  [(20, REvent 3 101 [] [vid 10; vid 1] []);
+   (20, REvent 3 102 [] [vid 10; vid 2] []);
+   (20, REvent 4 103 [] [vid 10; vid 2] [])] /\
+  snd (fst (broker_remove_session ex_lb 100 10)) = 103.
+Proof. exact (conj ex_lb_wf (conj ex_lb_flags ex_lb_leave)). Qed.
+
 (** ** not_echoed *)
 Theorem not_echoed : forall b mtopic cause pub args x,
     In x (sub_meta_event b mtopic cause pub args) -> fst x <> cause.
@@ -395,10 +454,11 @@ Proof. exact C18Ex.kill_hyps. Qed.
 Example c18_kill_example :
   snd (step C18Ex.r0 (C18Ex.call12 "wamp.session.kill" [vid 11] [("reason", vuri "x.y")])) =
   [(12, RResult 5 [] [] []); (11, RGoodbye [] "x.y");
-   (10, REvent 2 10 [("topic", vuri t_sub_on_delete)] [vid 11; vid 1] []);
-   (10, REvent 2 11 [("topic", vuri t_reg_on_unregister)] [vid 11; vid 24] []);
-   (10, REvent 2 12 [("topic", vuri t_reg_on_delete)] [vid 11; vid 24] []);
-   (10, REvent 2 13 [("topic", vuri t_on_leave)] [vid 11; vstr "<gen>"; vstr "anonymous"] [])] /\
+   (10, REvent 2 10 [("topic", vuri t_sub_on_unsubscribe)] [vid 11; vid 1] []);
+   (10, REvent 2 11 [("topic", vuri t_sub_on_delete)] [vid 11; vid 1] []);
+   (10, REvent 2 12 [("topic", vuri t_reg_on_unregister)] [vid 11; vid 24] []);
+   (10, REvent 2 13 [("topic", vuri t_reg_on_delete)] [vid 11; vid 24] []);
+   (10, REvent 2 14 [("topic", vuri t_on_leave)] [vid 11; vstr "<gen>"; vstr "anonymous"] [])] /\
   map s_id (r_clients (fst (step C18Ex.r0 (C18Ex.call12 "wamp.session.kill" [vid 11] [("reason", vuri "x.y")])))) = [10; 12].
 Proof. exact C18Ex.kill. Qed.
 
